@@ -81,10 +81,13 @@ func typeEdits(p *sdl.Program) []typeEdit {
 	var out []typeEdit
 	// instances that became superfluous once fields are gone (no recompilation needed, but the
 	// worker's minimiser ran before the fields were removed)
-	for k, inst := range p.Instances {
-		k := k
+	for _, inst := range p.Instances {
+		id := inst.ID
 		out = append(out, typeEdit{"instance " + inst.ID + " removed", func(q *sdl.Program) bool {
-			q.Instances = append(q.Instances[:k], q.Instances[k+1:]...)
+			if q.InstByID(id) == nil {
+				return false
+			}
+			q.RemoveInstance(id)
 			return true
 		}})
 	}
